@@ -172,7 +172,7 @@ pub fn run(ctx: &mut Ctx, replay: Option<&Value>) {
         run_case(ctx, case);
         return;
     }
-    let n = ctx.cases.unwrap_or(if ctx.tier_thorough { 60_000 } else { 3_000 });
+    let n = ctx.count(8_000, 60_000);
     for i in 0..n {
         let mut rng = Rng::fork(ctx.seed, i);
         let cfg = GenCfg { max_depth: if ctx.tier_thorough { 5 } else { 4 }, max_fanout: 4, mark_pct: *rng.pick(&[10u32, 30, 60, 90]), unsafe_keys: rng.chance(1, 5), reference: false, sentinels: false };
